@@ -215,16 +215,26 @@ def run(ck, facts):
     a = arm_of("Auto")
     if a:
         b = C.strip_keep_macro(a["b"])
-        iff = [x for x in C.walk(b) if x.get("k") == "if"]
-        ok = len(iff) == 1
+        param_ids = {p_.get("id") for p_ in sc["hir"].get("params", []) if isinstance(p_, dict)}
+        # the one test of the `Option<&mut bool>` parameter: `if let Some(f) = p {..} else {..}` or `let Some(f) = p else {..}; ..`
+        tests = []
+        for x in C.walk(b):
+            if x.get("k") == "if":
+                c = C.strip(x["c"])
+                if c.get("k") == "let" and c["pat"].get("v") == "Some" and C.strip(c["init"]).get("k") == "local" and C.strip(c["init"]).get("id") in param_ids:
+                    tests.append((x["t"], x.get("e")))
+            elif x.get("k") == "block":
+                for i_, s_ in enumerate(x.get("s") or []):
+                    if s_.get("k") == "letst" and s_.get("els") is not None and isinstance(s_.get("pat"), dict) and s_["pat"].get("v") == "Some" and \
+                            C.strip(s_.get("init") or {}).get("k") == "local" and C.strip(s_["init"]).get("id") in param_ids:
+                        tests.append(({"k": "block", "s": x["s"][i_ + 1:], "e": x.get("e")}, s_["els"]))
+        ok = len(tests) == 1
         if ok:
-            i0 = iff[0]
-            c = C.strip(i0["c"])
-            ok = c.get("k") == "let" and c["pat"].get("v") == "Some" and C.strip(c["init"]).get("n") == "auto_found"
-            sets_flag = any(x.get("k") == "assign" and lit_bool(x["r"]) is True for x in C.walk(i0["t"]))
-            ret_true = any(returns_ok_bool(x) is True for x in C.walk(i0["t"]) if x.get("k") == "ret")
-            else_err = i0.get("e") is not None and any(x.get("k") == "call" and (x.get("ctor") or "").endswith("Result::Err") for x in C.walk(i0["e"]))
-            ok = ok and sets_flag and ret_true and else_err
+            some_r, none_r = tests[0]
+            sets_flag = any(x.get("k") == "assign" and lit_bool(x["r"]) is True for x in C.walk(some_r))
+            ret_true = any(returns_ok_bool(x) is True for x in C.walk(some_r) if x.get("k") == "ret") or lit_bool(some_r.get("e") or {}) is True
+            else_err = none_r is not None and any(x.get("k") == "call" and (x.get("ctor") or "").endswith("Result::Err") for x in C.walk(none_r))
+            ok = sets_flag and ret_true and else_err
         ck.expect(ok, "R1", "satisfies_cfg/Auto", "true only where auto is allowed, else an error", "`auto` handling changed", C.loc(sc, a.get("ln")))
     ib = core.fn("<diplomat_core::hir::attrs::BasicAttributeValidator as diplomat_core::hir::attrs::AttributeValidator>::is_backend")
     b = C.strip(C.fn_body(ib))
@@ -314,10 +324,15 @@ def run(ck, facts):
         if n.get("k") == "if":
             c = C.strip(n["c"])
             lits = [x["v"] for x in C.walk(c) if x.get("k") == "lit" and x.get("t") == "str"]
-            if lits == ["any"] and n.get("e"):
+            if lits in (["any"], ["all"]) and n.get("e"):
                 t_c = [x["ctor"].split("::")[-1] for x in C.walk(n["t"]) if x.get("ctor", "").startswith(CFG)]
                 e_c = [x["ctor"].split("::")[-1] for x in C.walk(n["e"]) if x.get("ctor", "").startswith(CFG)]
-                inner_ok = set(t_c) == {"Any"} and set(e_c) == {"All"}
+                # `name == "any"` / `name != "any"` / `name == "all"` ... : the branch taken when the keyword IS the literal builds the literal's node
+                ne = (c.get("k") == "bin" and c.get("op") == "Ne") or (c.get("k") == "un" and c.get("op") == "Not")
+                if ne:
+                    t_c, e_c = e_c, t_c
+                mine, other = ("Any", "All") if lits == ["any"] else ("All", "Any")
+                inner_ok = set(t_c) == {mine} and set(e_c) == {other}
     ck.expect(ok and inner_ok, "R3", "parse/keywords", str({k: sorted(v) for k, v in kw.items()}), "keyword -> constructor mapping changed: %s" % {k: sorted(v) for k, v in kw.items()}, C.loc(pf))
     # the parser only BUILDS formula nodes; it never takes one apart (flattening `all(any(a, b), c)` into `all(a, b, c)` changes the truth table)
     def _pats(n_):
@@ -473,9 +488,16 @@ def run(ck, facts):
                     br = i0["t"] if exprval.bev(i0["c"], {"context": c}) else i0.get("e")
                 elif i0.get("k") == "match":
                     br = None
+                    is_bool = any(a_["pat"].get("k") == "lit" and isinstance(a_["pat"].get("v"), bool) for a_ in i0["arms"])
+                    bval = exprval.bev(i0["s"], {"context": c}) if is_bool else None
                     for arm in i0["arms"]:
                         pv = arm["pat"]
-                        names = [(v or "").split("::")[-1] for v in [pv.get("v")] + [a_.get("v") for a_ in (pv.get("alts") or [])] if v]
+                        if is_bool:
+                            if pv.get("k") in ("wild", "bind") or (pv.get("k") == "lit" and pv.get("v") is bval):
+                                br = arm["b"]
+                                break
+                            continue
+                        names = [v.split("::")[-1] for v in [pv.get("v")] + [a_.get("v") for a_ in (pv.get("alts") or [])] if isinstance(v, str)]
                         if pv.get("k") in ("wild", "bind") or c in names:
                             br = arm["b"]
                             break
